@@ -182,6 +182,9 @@ class Cb:
     yields: int = 0
     wrap: str = ""        # "" | "wraps" (functools.wraps decorator) | "sig" (… that also sets __signature__)
     alias_of: int = 0     # >0: shares the function (same name, same provider) of that callback, in another group
+    same_as: int = 0      # >0: the very same function (name, provider) as that callback, referred to by name from
+                          # *another transition* in the same group (`cond="ok"` on several transitions): one callback id
+                          # per place of use, told apart at run time by the transition the library passes
     ref: int = -1         # style "evref": the *event* (id) whose name is given as the callback (`before="go"`): the
                           # library calls that event with the parent's arguments (`dispatcher.event_method`)
 
@@ -358,6 +361,15 @@ def normalize(scn: Scn):
     """A plain function that returns an awaitable is only meaningful on the async engine, which the library
     selects from the *coroutine functions* it resolved at construction: without one, such callbacks become
     ordinary coroutine functions (keeps generated, mutated and shrunk scenarios within legal usage)."""
+    shared = {c.same_as for c in scn.cbs if c.same_as}
+    prim = {c.id: c for c in scn.cbs}
+    for c in scn.cbs:      # one function, several places: one signature (with event_data), one kind
+        if c.id in shared and c.sig not in ("ed", "kwargs"):
+            c.sig, c.named = "ed", ()
+    for c in scn.cbs:
+        if c.same_as and c.same_as in prim:
+            q = prim[c.same_as]
+            c.sig, c.named, c.coro, c.yields, c.wrap = q.sig, q.named, q.coro, q.yields, q.wrap
     for c in scn.cbs:      # a plain attribute / an event used as a callback is never a coroutine function
         if c.style in ("attr", "evref") and (c.coro or c.yields or c.wrap):
             c.coro, c.yields, c.wrap = False, 0, ""
@@ -471,6 +483,8 @@ def _name_key(c: Cb):
     library but one callback id per group for the harness, so every alias gets its own pseudo-name"""
     if c.style == "evref":      # one callback id per place of use; the machine offers the event under its name
         return f"{c.name}#ev{c.id}"
+    if c.same_as:               # one callback id per transition that refers to the name
+        return f"{c.name}#at{c.at[1]}"
     return f"{c.name}#{c.group}" if c.alias_of else c.name
 
 
@@ -620,10 +634,38 @@ class Runtime:
         for k in self.aliases:
             self.aliases[k].sort(key=lambda x: order[x.group])
         self.alias_count = {}
+        self.sharers = {}         # primary callback id -> [primary, the callbacks that share its function]
+        for c in scn.cbs:
+            if c.same_as and c.same_as in self.cbmap:
+                self.sharers.setdefault(c.same_as, [self.cbmap[c.same_as]]).append(c)
         self.chain = scn.is_chain()
         self.tds = []             # chain scenarios: (TriggerData object, label) in order of first appearance
         self.cross_hook = None    # worlds: called after a callback's nested sends (cross-machine nesting)
         self.owner_ids = None     # ids of the objects that may provide this instance's callbacks (C17)
+
+    def pick_place(self, c, kw):
+        """one function referred to by name from several transitions: the invocation belongs to the callback id of the
+        transition the library is activating (`event_data.transition`)"""
+        group = self.sharers.get(c.id)
+        if not group:
+            return c
+        ed = kw.get("event_data")
+        tr = getattr(ed, "transition", None)
+        if tr is None:
+            self.lines.append(f"X shared callback {c.id} invoked without event_data.transition")
+            return c
+        try:
+            evs = sorted({int(self.ev_id(e)) for e in tr.events})
+        except ValueError:
+            evs = None
+        for x in group:
+            t = self.scn.trans[x.at[1]]
+            if (self.state_idx(tr.source) == str(t.src) and self.state_idx(tr.target) == str(t.tgt)
+                    and bool(tr.internal) == bool(t.internal) and evs == sorted(set(t.events))):
+                return x
+        self.lines.append(f"X shared callback {c.id} ({c.name}) invoked for a transition that does not refer to it: "
+                          f"{self.state_idx(tr.source)}->{self.state_idx(tr.target)} events {evs}")
+        return c
 
     def alias_pick(self, c, kw):
         """A name attached to several groups of one transition is one function: its k-th invocation
@@ -783,7 +825,7 @@ def make_fn(rt: Runtime, c: Cb, with_self: bool):
     c0 = c
 
     def _body(kw, me=None):
-        c = rt.alias_pick(c0, kw)
+        c = rt.alias_pick(rt.pick_place(c0, kw), kw)
         _owner(me)
         got = rt.relabel(extract(c0, (), kw), kw)
         tid, ph = rt.begin(c, got)
@@ -803,7 +845,7 @@ def make_fn(rt: Runtime, c: Cb, with_self: bool):
         return POOL[ret]
 
     async def _abody(kw, me=None):
-        c = rt.alias_pick(c0, kw)
+        c = rt.alias_pick(rt.pick_place(c0, kw), kw)
         _owner(me)
         got = rt.relabel(extract(c0, (), kw), kw)
         tid, ph = rt.begin(c, got)
@@ -949,7 +991,7 @@ def build(scn: Scn, rt: Runtime, cls_name=None, picklable=False):
     model_ns, listener_ns = {}, {}
     hooks = scn.listener_kind == "hooks"
     for c in scn.cbs:
-        if c.style not in ("conv", "name", "attr") or c.alias_of:
+        if c.style not in ("conv", "name", "attr") or c.alias_of or c.same_as:
             continue
         if c.style == "attr":     # a plain (non-callable) attribute used as a callback: its value is the callback's value
             fn = POOL[attr_value(scn, c)]
